@@ -75,6 +75,7 @@ template <class T> static void plane (Gen<T>& g, int it)
     // line-plane intersection
     {
         int fam = it % 4;      // 0/1 generic, 2 parallel to the plane (axis-aligned plane), 3 line inside an axis-aligned plane
+        bool almost = (it % 20 == 6);   // (fam 2) ... parallel but for a slope at the bottom of the number range: the parameter overflows
         Plane3<T> Q = P;
         Vec3<T> a0 = iv (g), u = nz (g);
         if (fam >= 2)
@@ -86,6 +87,9 @@ template <class T> static void plane (Gen<T>& g, int it)
             if (fam == 3) a0[ax] = Q.distance * Q.normal[ax];
         }
         Line3<T> l (a0, a0 + u);
+        if (almost && fam == 2)
+            for (int i = 0; i < 3; ++i)
+                if (Q.normal[i] != 0) { l.dir[i] = std::numeric_limits<T>::denorm_min () * T (1 + it % 5); if (l.pos[i] == Q.distance * Q.normal[i]) l.pos[i] += 1; }
         Vec3<T> pt (7, 7, 7); T tt = 7;
         bool ok = Q.intersect (l, pt), okT = Q.intersectT (l, tt);
         Rec r ("planeline"); r.str ("t", t); r.num ("fam", fam); r.raw ("n", jv (Q.normal)); r.raw ("dist", jw (Q.distance)); putline (r, "pos", "dir", l);
